@@ -461,7 +461,11 @@ func runScenario(s *Scenario, kind string, quiet time.Duration) *runOut {
 		}
 	}
 	report := func(sym, detail string) {
-		out.findings = append(out.findings, finding{class, sym, detail})
+		c := class
+		if strings.HasPrefix(sym, "502_") || sym == "second_request_not_served_after_502" {
+			c = "upstream_failure" // the quality of the 502 does not depend on the kind of failure
+		}
+		out.findings = append(out.findings, finding{c, sym, detail})
 	}
 	if s.Reused {
 		if err := cl.Send(request("GET", "/warm", s.Proto)); err != nil {
@@ -600,7 +604,12 @@ func runScenario(s *Scenario, kind string, quiet time.Duration) *runOut {
 		}
 	}
 	// --- response 2 ---
-	resp1ClosesConn := closedAfter1 || r1.Close
+	// a complete origin response may legitimately end the connection (Connection: close, close-delimited);
+	// a 502 synthesised by the proxy may not: "after a 502 the same client connection continues to serve"
+	resp1ClosesConn := !is502 && (closedAfter1 || r1.Close)
+	if isScript && !is502 && !sc.closes && s.Kind == "truncate" && s.K == len(sc.wire) {
+		resp1ClosesConn = false // a complete keep-alive response: the connection must stay usable
+	}
 	if complete && !resp1ClosesConn {
 		// the connection stayed open after a complete response 1 (a 502 in particular): request 2 must be served
 		ok := len(resps) >= 2 && resps[1].HeadErr == "" && resps[1].Status == 200 && resps[1].Header.Get("X-Second") == "yes" && string(resps[1].Body) == marker && resps[1].BodyEnd == h1harness.EndOK
